@@ -225,11 +225,25 @@ def option_paths(mod):
       and c.func.attr == "get_attribute" for c in ast.walk(st))]
   if len(loops) != 1:
     raise AnalysisError(f"{DISPATCH}: the loop that looks the operator methods up was not found")
+  lp = U.ListPaths(mod)
   try:
-    results = U.ListPaths(mod).at_loop(fn, loops[0])
+    results = lp.at_loop(fn, loops[0])
   except U.NotUnderstood as e:
     raise AnalysisError(f"{DISPATCH}: the list of operand orders is built in a way that is "
                         f"not understood: {e}") from e
+  if lp.records:
+    # options are module-local records (dataclass / NamedTuple): their fields, in
+    # declaration order, must play the (left, right, method) roles in the loop
+    if len(lp.records) != 1:
+      raise AnalysisError(f"{DISPATCH}: the options are records of several classes "
+                          f"{sorted(lp.records)}")
+    roles = U.record_loop_roles(loops[0], list(lp.records.values())[0])
+    if isinstance(roles, str):
+      raise AnalysisError(f"{DISPATCH}: the options are {sorted(lp.records)[0]} records but {roles}")
+    results = [(path, ("list", tuple(("tuple", tuple(it[1][i] for i in roles))
+                                     if it[0] == "tuple" and len(it[1]) == 3 else it
+                                     for it in val[1])) if val[0] == "list" else val)
+               for path, val in results]
   out = []
   for path, val in results:
     if val[0] != "list" or not all(it[0] == "tuple" and len(it[1]) == 3 for it in val[1]):
@@ -399,6 +413,9 @@ _OV_BODY = ("  if subcls and supercls and supercls in subcls.mro:\n"
 _OV_RET = "    return provider is not None and provider != _provider(supercls, attr)\n"
 
 VARIANTS = [
+    # the option tuples as a module-local frozen dataclass (benign/C14-b3r1)
+    {"name": "twin-benign-C14-b3r1-attempt-records", "rule": "R14.22",
+     "patch": "benign/C14-b3r1/patch.diff", "expect": "silent"},
     # rebased onto the repaired _overrides (D66); the original is patch.orig.diff
     {"name": "seeded-C14-r3m1", "rule": "R14.22", "patch": "seeded/C14-r3m1/patch.diff",
      "expect": "fire"},
